@@ -76,15 +76,19 @@ func (n *SimNet) RoundTrip(req *http.Request) (*http.Response, error) {
 		}
 	}
 	rec := &NetRec{At: time.Now().Sub(n.start), Method: req.Method, Host: req.URL.Host, Path: req.URL.EscapedPath(), Header: req.Header.Clone(), RawBody: raw, Body: body}
-	n.mu.Lock()
-	h := n.handlers[req.URL.Host]
-	if !n.Stateless {
+	var h func(rec *NetRec, req *http.Request) *SimResp
+	if n.Stateless {
+		// the routing table is read-only once the nodes are up: no lock, no record
+		h = n.handlers[req.URL.Host]
+	} else {
+		n.mu.Lock()
+		h = n.handlers[req.URL.Host]
 		n.seq++
 		rec.Seq = n.seq
 		rec.Step = n.out.Steps
 		n.Log = append(n.Log, rec)
+		n.mu.Unlock()
 	}
-	n.mu.Unlock()
 	if h == nil {
 		return nil, fmt.Errorf("simnet: no route to host %q", req.URL.Host)
 	}
